@@ -404,7 +404,10 @@ func stressCase(idx int64, r *rand.Rand) {
 			}()
 		}
 		rt.Count("stress_runs_with_the_delegate_being_described", 1)
-		iters = 4000
+		iters = 1500
+		if rt.Thorough() {
+			iters = 600 // the thorough tier has 800 times as many of these runs
+		}
 	}
 	var holders, maxHolders, progress, refused atomic.Int64
 	var wg sync.WaitGroup
